@@ -643,7 +643,7 @@ class Gen:
         if k == "copy":
             s = {"k": "copy", "h": 0, "a": [{"h": h}]}
             self.nh_assign(s)
-            self.np.H[s["h"]] = self.arr(h).copy()
+            self.np.H[s["h"]] = np.copy(self.arr(h))
             self.prog.append(s)
             self.const[s["h"]] = self.const[h]
             self.isview[s["h"]] = False
